@@ -210,7 +210,7 @@ func isHeapCall(in ssa.Instruction, method string) (*ssa.CallCommon, bool) {
 }
 
 func checkC11(w *World, r *Report) {
-	r.Decides = "C11 is decided in its structural part only: (a) each forwarding write handler returns, on success, the error received from the queue's Add for the leader response's revision and the request's table; (b) in Update the applied callback is reachable only after the commit's success edge and receives the leader index when one is present; the follower wires the Notify method of the same queue object it hands to the forwarding server and runs, the only reader of the listener field is the closure the manager hands to the state-machine factory, and the state machine's callback field is written only by the factory; (c) in every function that answers a waiter an answered waiter leaves the heap before the event loop goes on and a waiter is removed only if answered on that path; (d) the heap key of a waiter is written only when the waiter is created; (e) the waiter channel is created with a constant capacity >= 1, the event loop sends on no other channel than waiter channels and the reply of Len, has no blocking receive outside its select, and closes a waiter without error only over an edge establishing waiter.revision <= notified.revision."
+	r.Decides = "C11 is decided in its structural part only: (a) each forwarding write handler returns, on success, the error received from the queue's Add for the leader response's revision and the request's table; (b) in Update the applied callback is reachable only after the commit's success edge and receives the leader index when one is present; the follower wires the Notify method of the same queue object it hands to the forwarding server and runs, the only reader of the listener field is the closure the manager hands to the state-machine factory, and the state machine's callback field is written only by the factory; (c) in every function that answers a waiter an answered waiter leaves the heap before the event loop goes on and a waiter is removed only if answered on that path; (d) the heap key of a waiter is written only when the waiter is created; (e) the waiter channel is created with a constant capacity >= 1, the event loop sends on no other channel than waiter channels and the reply of Len, has no blocking receive outside its select, and closes a waiter without error only over an edge establishing waiter.revision <= notified.revision. Also: the sweep of cancelled waiters is driven by a ticker made before the loop; (g) a shard started under a record's recovery id does not announce under the table's name before the catalogue is switched (known finding K2 at Manager.Restore)."
 	r.NotDecided = []string{"timeliness ('as soon as')", "fairness of the select", "correctness of the heap algorithm"}
 	r.Assume = []string{"a send on a channel with free capacity does not block", "the sweep closure runs on the event loop goroutine (iter.Consume is synchronous)"}
 	q := findQueue(w)
@@ -225,6 +225,59 @@ func checkC11(w *World, r *Report) {
 	c11StableKey(w, r, q)
 	c11NoBlock(w, r, q)
 	c05Batching(w, r, "C11.f", "f-announced-index-not-ahead")
+	c11ServingShard(w, r)
+}
+
+// c11ServingShard: an applied index is announced for a table only by the shard its reads go to.
+func c11ServingShard(w *World, r *Report) {
+	ob := r.Ob("C11.g", "g-announced-by-serving-shard", "the table manager's start function wires every state machine it starts to the applied-index listener under the table's name; a call site that starts a shard under a *recovery* id (the record's RecoverID, not its ClusterID) starts a shard that reads do not go to until the catalogue is switched - its announcements must not reach the queue under the table's name before that", "the queue releases a waiter as soon as the table's name is announced at its revision: during a snapshot recovery the recovery shard announces the stream's leader index while reads still go to the old shard - a forwarded write whose revision the stream covers is acknowledged although a read on the same node does not see it yet")
+	st := w.Func("storage/table", "Manager.startTable")
+	if st == nil {
+		ob.Undecided("anchor", "Manager.startTable not found")
+		return
+	}
+	// does the listener closure announce unconditionally (apart from the nil test of the listener)?
+	unconditional := false
+	for _, cl := range st.AnonFuncs {
+		eachInstr(cl, func(in ssa.Instruction) {
+			c := callOf(in)
+			if c == nil || !strings.Contains(Expr(c.Value), "AppliedIndexListener") {
+				return
+			}
+			ob.Site(in.Pos(), "state machine announces through the listener under "+Expr(c.Args[0]))
+			wk := &Walk{Target: func(x ssa.Instruction) bool { return x == in }, EdgeOK: func(b *ssa.BasicBlock, k int) bool {
+				iff, ok := b.Instrs[len(b.Instrs)-1].(*ssa.If)
+				if !ok {
+					return true
+				}
+				// only the listener's nil test may stand in front of the announcement
+				return strings.Contains(Expr(iff.Cond), "AppliedIndexListener")
+			}}
+			if wk.Find(entry(cl)) != nil {
+				unconditional = true
+			}
+		})
+	}
+	n := 0
+	for _, ci := range w.CallersOf(st) {
+		args := ci.Common().Args
+		if len(args) < 3 {
+			continue
+		}
+		id := Expr(args[2])
+		n++
+		ob.Site(ci.Pos(), FnName(ci.Parent())+" starts a shard under id "+id)
+		// (the reconciliation starts shards out of a set keyed by ClusterID and RecoverID alike: that
+		// call site is a recovery start only after a restart in the middle of a recovery - not decided)
+		recovery := strings.Contains(id, "RecoverID")
+		if recovery && unconditional {
+			ob.Violate("recovery-shard-announces@"+FnName(ci.Parent()), ci.Pos(), FnName(ci.Parent())+" starts a recovery shard (id `"+id+"`) whose state machine announces its applied leader index under the table's own name: waiters of the table are released while reads still go to the old shard")
+		}
+	}
+	if n == 0 {
+		ob.Undecided("shape", "nobody calls startTable")
+	}
+	ob.NeedFloor(2)
 }
 
 func c11Forwarding(w *World, r *Report, q *queueA, id, slug string) {
@@ -838,6 +891,26 @@ func c11StableKey(w *World, r *Report, q *queueA) {
 
 func c11NoBlock(w *World, r *Report, q *queueA) {
 	ob := r.Ob("C11.e", "e-loop-cannot-block", "every store to the waiter's channel field is a make with constant capacity >= 1; in the event loop and its closures every send is on a waiter channel or the reply channel of the Len request, there is no receive outside the select; the waiter is closed (success) only over an edge establishing waiter.revision <= notification.revision", "an unbuffered waiter channel or any other blocking operation lets one slow or cancelled caller stall every other caller and the apply path")
+
+	// the sweep of cancelled waiters is driven by a ticker created before the loop: a timer made
+	// in the select (time.After) starts again with every event, and under steady traffic never fires
+	eachInstr(q.Run, func(in ssa.Instruction) {
+		sel, ok := in.(*ssa.Select)
+		if !ok {
+			return
+		}
+		for _, st := range sel.States {
+			if st.Dir != types.RecvOnly {
+				continue
+			}
+			e := Expr(st.Chan)
+			if strings.Contains(e, "time.After(") || strings.Contains(e, "time.NewTimer(") || strings.Contains(e, "time.Tick(") {
+				if def, ok := st.Chan.(ssa.Instruction); ok && def.Block() != nil && inCycle(def.Block()) {
+					ob.Violate("sweep-timer-restarts", in.Pos(), "the event loop waits on `"+e+"`, created anew in every iteration: the sweep only runs after a full interval without any add, notification or length request - under steady traffic a cancelled waiter is never answered")
+				}
+			}
+		}
+	})
 	for _, fn := range w.ModFuncs() {
 		eachInstr(fn, func(in ssa.Instruction) {
 			st, ok := in.(*ssa.Store)
